@@ -68,13 +68,16 @@ type TTY struct {
 	pend       []byte // incomplete sequence carried between writes
 
 	// measurements / audits
-	Unknown      []string
-	Malformed    int // ill-formed control sequences written by the application (ignored, like a real terminal does)
-	Overflow     int // writes at or past the right margin
-	WritesClosed int // bytes written after the output was closed
-	Bells        int
-	BytesOut     int
-	Scrolls      int
+	Unknown       []string
+	Malformed     int // ill-formed control sequences written by the application (ignored, like a real terminal does)
+	Overflow      int // writes at or past the right margin
+	OverflowStale int // … of which while the application had not yet learnt of a resize
+	sizeStale     bool
+	OverflowAt    string // where the first of them happened
+	WritesClosed  int    // bytes written after the output was closed
+	Bells         int
+	BytesOut      int
+	Scrolls       int
 	// OnDSR is called (on the writing goroutine) when the application asks for the cursor position.
 	OnDSR func(row, col int)
 	// Width returns the display width of a rune (harness-owned table).
@@ -201,7 +204,17 @@ func (t *TTY) Restore() {
 	t.mu.Unlock()
 }
 
+// WinSize is what the application's TIOCGWINSZ returns. Until the application has asked after a resize it
+// still draws for the old size: writes past the (new) margin in that interval are the terminal's doing.
 func (t *TTY) WinSize() (int, int) {
+	t.mu.Lock()
+	defer t.mu.Unlock()
+	t.sizeStale = false
+	return t.Cols, t.Rows
+}
+
+// Size is the harness's view of the window size (does not count as the application having noticed).
+func (t *TTY) Size() (int, int) {
 	t.mu.Lock()
 	defer t.mu.Unlock()
 	return t.Cols, t.Rows
@@ -223,6 +236,7 @@ func (t *TTY) Resize(cols, rows int) {
 	if rows < 1 {
 		rows = 1
 	}
+	t.sizeStale = true
 	for _, s := range []*screen{&t.main, &t.alt} {
 		n := newScreen(cols, rows)
 		for r := 0; r < rows && r < len(s.cells); r++ {
@@ -324,8 +338,17 @@ func (t *TTY) put(r rune) {
 		if t.Wrap {
 			s.col = 0
 			t.lineFeed()
+		} else if t.sizeStale {
+			t.OverflowStale++
+			s.col = t.Cols - w
+			if s.col < 0 {
+				return
+			}
 		} else {
 			t.Overflow++
+			if t.OverflowAt == "" {
+				t.OverflowAt = fmt.Sprintf("glyph %q (%d columns) at row %d column %d of %d; the row so far: %q", r, w, s.row, s.col, t.Cols, t.rowLocked(s.row))
+			}
 			s.col = t.Cols - w
 			if s.col < 0 {
 				return
@@ -334,7 +357,11 @@ func (t *TTY) put(r rune) {
 	}
 	if s.col < 0 || s.col >= t.Cols || s.row < 0 || s.row >= t.Rows {
 		// a glyph wider than the whole screen
-		t.Overflow++
+		if t.sizeStale {
+			t.OverflowStale++
+		} else {
+			t.Overflow++
+		}
 		t.clamp()
 		return
 	}
